@@ -5,7 +5,7 @@ from . import tracecheck
 from .limbs import num
 
 
-C02_CLAUSES = {"OptimumAchieved", "IntakeCapsAsConfigured", "HumanShareCaps", "FeedShareCaps", "BioShareCaps", "NoStoragePolicy", "BioNonRising", "HumansPinned",
+C02_CLAUSES = {"OptimumAchieved", "IntakeCapsAsConfigured", "StockRegimeAsConfigured", "HumanShareCaps", "FeedShareCaps", "BioShareCaps", "NoStoragePolicy", "BioNonRising", "HumansPinned",
                "ScoreAchieved"}
 
 
@@ -41,7 +41,9 @@ def lp_trace(run, lp):
               sfInitial=q(c["sf_initial"] if add["sf"] else 0.0), store=bool(c["store"]),
               popNeed=q(c["POP"] * c["KCALS_MONTHLY"] / 1e9), monthDays=num(c["KCALS_MONTHLY"] / c["KCALS_DAILY"]),
               capH=cap(c, "HUMANS"), capF=cap(c, "FEED"), capB=cap(c, "BIOFUEL"),
-              capsCfg={"enabled": "enabled", "disabled_for_humans": "disabled"}.get(str(((run.get("job") or {}).get("options") or {}).get("intake_constraints")), "unknown"))
+              capsCfg={"enabled": "enabled", "disabled_for_humans": "disabled"}.get(str(((run.get("job") or {}).get("options") or {}).get("intake_constraints")), "unknown"),
+              storeCfg={"zero": "store", "baseline": "store", "no_stored_between_years": "nostore", "baseline_no_stored_between_years": "nostore"}.get(
+                  str(((run.get("job") or {}).get("options") or {}).get("ratio_stocks_untouched")), "unknown"))
     ev = [dict(ev="Begin", c=rc)]
     feed_key, bio_key = ("feed", "biofuel") if lp["kind"] == "H" else ("max_feed", "max_biofuel")
     for m in range(n):
